@@ -348,7 +348,38 @@ def record_identifier_invariant(ctx, rule):
                         "an id shorter than 64 bytes received from a peer decodes fine and then panics in namespace()/author()/key()" % b.path, s["sp"])
     if n < 1:
         raise mir.AnchorMissing("no construction of sync::RecordIdentifier found")
-    return ok_all
+    # the validating conversion evaluated (K6') on byte strings of every interesting length: it accepts exactly the
+    # lengths from 64 on, and on every length it accepts no accessor panics (the invariant the accessors rely on)
+    from . import feval as E, C08
+    RI = "sync::RecordIdentifier"
+    tf = [pth for pth in f.bodies if pth.startswith("<sync::RecordIdentifier as std::convert::TryFrom<") and pth.endswith(">::try_from")]
+    if len(tf) != 1:
+        raise mir.AnchorMissing("expected one TryFrom<..> for RecordIdentifier, found %d" % len(tf))
+    tb = f.body(tf[0])
+    ctx.touch(tb)
+    rows = {}
+    panics = []
+    for L in (0, 1, 31, 32, 33, 63, 64, 65, 70):
+        oracle, state = C08.id_oracle(f, L)
+        try:
+            ret, it_ = E.run_it(f, tb.path, [E.Tok("id")], {}, oracle)
+            got = E.describe(it_.resolve(ret), f)
+        except E.Unsupported as ex:
+            got = "UNSUPPORTED-FORM: %s" % ex
+        rows[L] = "accepted" if got == "Ok(RecordIdentifier(id))" else ("rejected" if got.startswith("Err(") else got)
+        if rows[L] == "accepted":
+            for acc in ("as_byte_tuple", "to_byte_tuple", "namespace", "author", "key", "key_bytes"):
+                ab = f.body(RI + "::" + acc)
+                try:
+                    r2, it2 = E.run_it(f, ab.path, [E.href("self")], {"self": E.struct(f, RI, **{"0": E.Tok("id")})}, oracle)
+                    if r2 is not None and r2[0] == "diverge":
+                        panics.append("%s() on an accepted id of %d bytes" % (acc, L))
+                except E.Unsupported as ex:
+                    panics.append("%s() on an accepted id of %d bytes: %s" % (acc, L, ex))
+    want = {L: ("accepted" if L >= 64 else "rejected") for L in rows}
+    okv = rows == want and not panics
+    ctx.check(okv, rule, tb.path, "identifier-length-validated", "byte length -> %s; accessors that panic on an accepted length: %s; spec: accepted iff at least 64 bytes (namespace + author + key), and then every accessor is total" % (rows, panics[:4]), tb.sp)
+    return ok_all and okv
 
 
 def panic_audit(ctx, rule="C09.R3", only=None, sessions_ok=None):
